@@ -23,20 +23,43 @@ Proof.
   - destruct e; try apply IH; reflexivity.
 Qed.
 
-Lemma must_complete_monotone : forall evs evs' t,
-  must_complete evs t = true -> must_complete (evs ++ evs') t = true.
+Lemma stopped_app : forall evs evs' id, stopped (evs ++ evs') id = stopped evs id || stopped evs' id.
 Proof.
-  intros evs evs' t H. destruct t as [|id|]; cbn [must_complete] in *.
+  induction evs as [|e evs IH]; intros evs' id; cbn [app stopped]; [reflexivity|].
+  destruct e; try apply IH. rewrite IH. apply orb_assoc.
+Qed.
+
+Lemma must_complete_bp_monotone : forall bp evs evs' t,
+  must_complete_bp bp evs t = true -> must_complete_bp bp (evs ++ evs') t = true.
+Proof.
+  intros bp evs evs' t H. destruct t as [|id| |id|]; cbn [must_complete_bp] in *.
   - rewrite lost_app, H. reflexivity.
   - rewrite lost_app, rx_state_app. destruct (lost evs); [reflexivity|].
     cbn [orb] in H. destruct (rx_state evs id); try discriminate; apply orb_true_r.
   - reflexivity.
+  - rewrite lost_app, stopped_app. destruct (negb bp); [reflexivity|]. cbn [orb] in *.
+    destruct (lost evs); [reflexivity|]. cbn [orb] in *. rewrite H. cbn. apply orb_true_r.
+  - rewrite lost_app. destruct (negb bp); [reflexivity|]. cbn [orb] in *. rewrite H. reflexivity.
+Qed.
+
+Lemma must_complete_monotone : forall evs evs' t,
+  must_complete evs t = true -> must_complete (evs ++ evs') t = true.
+Proof. intros evs evs' t. apply must_complete_bp_monotone. Qed.
+
+Lemma close_completes_everything_bp : forall bp evs t, must_complete_bp bp (evs ++ [ELost]) t = true.
+Proof.
+  intros bp evs t. assert (L : lost (evs ++ [ELost]) = true) by (rewrite lost_app; apply orb_true_r).
+  destruct t; cbn [must_complete_bp]; rewrite ?L; try reflexivity; destruct (negb bp); reflexivity.
 Qed.
 
 Lemma close_completes_everything : forall evs t, must_complete (evs ++ [ELost]) t = true.
+Proof. intros evs t. apply close_completes_everything_bp. Qed.
+
+(* STOP_SENDING ends the wait of a send call on that stream, whatever the credit *)
+Lemma stop_sending_completes_send : forall bp evs evs' id, must_complete_bp bp (evs ++ EStop id :: evs') (WSend id) = true.
 Proof.
-  intros evs t. assert (L : lost (evs ++ [ELost]) = true) by (rewrite lost_app; apply orb_true_r).
-  destruct t; cbn [must_complete]; rewrite ?L; reflexivity.
+  intros bp evs evs' id. cbn [must_complete_bp]. rewrite stopped_app. cbn [stopped]. rewrite N.eqb_refl.
+  cbn [orb]. rewrite !orb_true_r. reflexivity.
 Qed.
 
 Lemma acceptable_never_panic : forall evs, acceptable evs ObsPanic = false.
